@@ -72,3 +72,78 @@ Qed.
 Example accepted_quadratic_instance :
   check_C04 (CDiff [4]%nat 1 0 1 1 false false [0;1;4;9]%Q [true;false;true;true] [0;2;4;6]%Q) = true.
 Proof. vm_compute. reflexivity. Qed.
+
+(* the same for second derivatives: a recorded line sampling a cubic (length >= 4) gives, on the
+   OBSERVED array, the exact second derivative 2 c2 + 6 c3 x at the cell's position *)
+Theorem accepted_cubic_exact sh nvdim ax h vals valid obs i c0 c1 c2 c3 x0
+        (ln := line (sh ++ [nvdim]) (of_list (f0 QcOps) (sh ++ [nvdim]) (qcl vals)) ax i) :
+  check_C04 (CDiff sh nvdim ax 2 h false false vals valid obs) = true ->
+  inb (sh ++ [nvdim]) i = true -> (ax < length sh)%nat -> (4 <= nth ax sh 0)%nat ->
+  qc h <> 0%Qc ->
+  (forall j, (j < nth ax sh 0)%nat ->
+     nth j ln 0%Qc = cubic QcOps c0 c1 c2 c3 (x0 + fnat QcOps j * qc h)%Qc) ->
+  nth (ravel (sh ++ [nvdim]) i) (qcl obs) 0%Qc
+  = (f2 QcOps * c2 + ((f2 QcOps + f2 QcOps + f2 QcOps) * c3) * (x0 + fnat QcOps (nth ax i 0%nat) * qc h))%Qc.
+Proof.
+  intros H Hi Hax H4 Hh Hq.
+  rewrite (accepted_diff_cell _ _ _ _ _ _ _ _ _ _ i H Hi). fold ln.
+  assert (Lsh : nth ax (sh ++ [nvdim]) 0%nat = nth ax sh 0%nat) by (apply app_nth1; exact Hax).
+  assert (Lln : length ln = nth ax sh 0%nat).
+  { unfold ln, line. rewrite map_length, iota_length. exact Lsh. }
+  assert (Lv : length (line sh (of_list true sh valid) ax (removelast i)) = nth ax sh 0%nat).
+  { unfold line. rewrite map_length, iota_length. reflexivity. }
+  assert (Hj : (nth ax i 0 < nth ax sh 0)%nat).
+  { rewrite <- Lsh. apply inb_nth; [exact Hi | rewrite app_length; simpl; lia]. }
+  rewrite (diff_line_unrestricted QcOps 2 (qc h) ln _) by congruence.
+  change (Q2Qc 0) with (f0 QcOps).
+  rewrite (d_run_nth2 QcOps ln (qc h) (nth ax i 0%nat)) by lia.
+  apply (d2_exact_cubic QcOps QcLaws c0 c1 c2 c3 x0 (qc h) ln Hh); try lia.
+  intros j Hjl. apply Hq. lia.
+Qed.
+
+Example accepted_cubic_instance :
+  check_C04 (CDiff [5]%nat 1 0 2 1 false false [0;1;8;27;64]%Q [true;true;true;true;true] [0;6;12;18;24]%Q) = true.
+Proof. vm_compute. reflexivity. Qed.
+
+(* invalid cells: with the restriction on (open direction) the OBSERVED derivative at a cell whose
+   recorded validity flag is False is exactly zero *)
+Lemma split_at {A} (l : list A) j d : (j < length l)%nat ->
+  l = firstn j l ++ nth j l d :: skipn (S j) l.
+Proof.
+  revert j; induction l as [|x l IH]; intros [|j] Hj; simpl in *; try lia; [reflexivity|].
+  f_equal. apply IH. lia.
+Qed.
+
+Lemma sdc_invalid_zero order (h : Qc) (vals : list Qc) (valid : list bool) j :
+  length vals = length valid -> (j < length vals)%nat -> nth j valid true = false ->
+  nth j (sdc QcOps order h vals valid) (f0 QcOps) = f0 QcOps.
+Proof.
+  intros Hl Hj Hv.
+  rewrite (split_at vals j (f0 QcOps) Hj) at 1.
+  rewrite (split_at valid j true ltac:(lia)) at 1. rewrite Hv.
+  assert (Lf : length (firstn j vals) = length (firstn j valid)).
+  { rewrite !firstn_length. lia. }
+  rewrite (sdc_false_split QcOps order h _ _ _ _ _ Lf).
+  rewrite app_nth2; rewrite (sdc_length QcOps order h _ _ Lf), firstn_length, Nat.min_l by lia; [|lia].
+  rewrite Nat.sub_diag. reflexivity.
+Qed.
+
+Theorem accepted_invalid_zero sh nvdim ax order h vals valid obs i :
+  check_C04 (CDiff sh nvdim ax order h false true vals valid obs) = true ->
+  inb (sh ++ [nvdim]) i = true -> (ax < length sh)%nat ->
+  nth (nth ax i 0%nat) (line sh (of_list true sh valid) ax (removelast i)) true = false ->
+  nth (ravel (sh ++ [nvdim]) i) (qcl obs) 0%Qc = 0%Qc.
+Proof.
+  intros H Hi Hax Hv.
+  rewrite (accepted_diff_cell _ _ _ _ _ _ _ _ _ _ i H Hi).
+  assert (Lsh : nth ax (sh ++ [nvdim]) 0%nat = nth ax sh 0%nat) by (apply app_nth1; exact Hax).
+  assert (Hj : (nth ax i 0 < nth ax sh 0)%nat).
+  { rewrite <- Lsh. apply inb_nth; [exact Hi | rewrite app_length; simpl; lia]. }
+  unfold diff_line. cbv iota.
+  change (Q2Qc 0) with (f0 QcOps).
+  apply sdc_invalid_zero; [| |exact Hv]; unfold line; rewrite ?map_length, ?iota_length; lia.
+Qed.
+
+Example accepted_invalid_zero_instance :
+  check_C04 (CDiff [4]%nat 1 0 1 1 false true [0;1;4;9]%Q [true;false;true;true] [0;0;5;5]%Q) = true.
+Proof. vm_compute. reflexivity. Qed.
